@@ -139,6 +139,13 @@ func (n Number) addQuantum(i uint64) Number {
 // Less returns true if n is less than m. Panics if n and m are a mix of integer
 // and decimal.
 func (n Number) Less(m Number) bool {
+	// Zero has no sign: -0 is neither less than nor different from 0.
+	if n.Value == 0 {
+		n.Negative = false
+	}
+	if m.Value == 0 {
+		m.Negative = false
+	}
 	switch {
 	case n.Negative && !m.Negative:
 		return true
